@@ -61,6 +61,7 @@ static void run_pt(int k) {
             continue;
         }
         if (op == 'y') { thread_yield(); continue; }
+        if (op == 'p') { int n = pmc_choose(3, PMC_PROG, 0, "pad yields"); for (int k = 0; k < n; k++) thread_yield(); continue; }   // every arrival order on one vCPU
         bool nested = (op == 'N');          // recursive: lock twice
         uint64_t t_start = mv_now();
         errno = 0;
@@ -150,6 +151,11 @@ static const PmcConfig CFG[] = {
     {"m0n:L|L,i0",               3, {1,2}, {0,0}, {0,0}, {0,0}, "interrupt of a blocking locker from another vCPU"},
     {"m0c:L|L",                  3, {1,2}, {0,0}, {0,0}, {0,0}, "contending mode (owner not handed off)"},
     {"m0c:L,L|T:tdev",           2, {1,2}, {1,1}, {0,0}, {2,2}, ""},
+    {"m0n:pL,pL,ppi0",           3, {0,0}, {0,0}, {0,0}, {0,0}, "one vCPU, every arrival order: interrupt of a waiter before / after the hand-off"},
+    {"m0n:pL,pL,ppi1",           3, {0,0}, {0,0}, {0,0}, {0,0}, ""},
+    {"R0n:pN,pL,ppi1",           3, {0,0}, {0,0}, {0,0}, {0,0}, ""},
+    {"m0n:pT,pL,ppi0:tdev",      3, {0,0}, {1,2}, {0,0}, {0,0}, "one vCPU: timeout and interrupt and hand-off in every order"},
+    {"m0n:pL,pLpL,pi0pi0",       2, {0,0}, {0,0}, {0,0}, {0,0}, ""},
     {"m0n:Y|L",                  3, {1,2}, {0,0}, {0,0}, {0,0}, "try_lock vs lock"},
     {"m0n:Z|L",                  3, {1,2}, {0,0}, {0,0}, {0,0}, "zero timeout"},
     {"R0n:N|L",                  3, {1,2}, {0,0}, {0,0}, {0,0}, "recursive mutex, nested lock"},
